@@ -463,11 +463,33 @@ def ref_errors(m, g):
     return dict(err)
 
 
+_SHARED = {}
+
+
+def shared_model(name):
+    """one long-lived instance per model name: a corpus is checked with one model object, so the
+    answers must not depend on what that object was asked before"""
+    if name not in _SHARED:
+        _SHARED[name] = get_model(name)
+    return _SHARED[name]
+
+
+def table_roles(name):
+    """roles around the model's own table: every entry as written (patterns instantiated), its stem
+    when it ends in -of, and one or two inversions on top -- defined and undefined neighbours alike"""
+    out = []
+    for r in gens.model_roles(get_model(name)):
+        out += [r, r + '-of', r + '-of-of']
+        if r.endswith('-of'):
+            out.append(r[:-3])
+    return list(dict.fromkeys(out))
+
+
 @check('C16.errors')
 def c16_errors(args):
     ts = [tuple(t) for t in args['triples']]
     g = Graph(ts, top=args['top'])
-    m = get_model(args['model'])
+    m = shared_model(args['model']) if args.get('shared') else get_model(args['model'])
     try:
         got = m.errors(g)
     except Exception as e:
@@ -573,6 +595,21 @@ def run_C16(R):
         ts = [R.rnd.choice(TR2) for _ in range(R.rnd.randint(3, 6))]
         R.check('C16.errors', {'triples': ts, 'top': R.rnd.choice([None, None, 'a', 'c', 'q', '']),
                                'model': R.rnd.choice(['amr', 'default', 'custom'])})
+    # roles from the models' own tables with their neighbours (stem of a role defined with -of, extra
+    # inversions), in random order on one long-lived model object per table
+    for name in ('amr', 'custom', 'miniamr'):
+        pool = table_roles(name)
+        stems = [r for r in pool if r + '-of' in pool]
+        for it in range(400 if R.quick else 6000):
+            k = R.rnd.randint(2, 5)
+            roles = [R.rnd.choice(pool) for _ in range(k)]
+            if stems and R.rnd.random() < 0.6:
+                r = R.rnd.choice(stems)
+                pair = [r, r + '-of']
+                R.rnd.shuffle(pair)
+                roles += pair
+            ts = [('a', ':instance', 'x')] + [(R.rnd.choice('ab'), r, R.rnd.choice(['a', 'b', 'x', '7'])) for r in roles]
+            R.check('C16.errors', {'triples': ts, 'top': R.rnd.choice([None, 'a', 'b']), 'model': name, 'shared': True})
     for it in range(500 if R.quick else 8000):
         node = gens.random_tree(R.rnd, maxn=8, maxd=4, roles=gens.ROLES_AMR + [':foo', ':bar-of'])
         R.check('C16.decoded', {'node': node, 'model': R.rnd.choice(['amr', 'default'])})
